@@ -205,6 +205,11 @@ func (d *DNSFilter) handleBlockedServicesUpdate(w http.ResponseWriter, r *http.R
 		bsvc.Schedule = schedule.EmptyWeekly()
 	}
 
+	// Get the number of services for the log now: once the settings are
+	// published below, the deprecated handler may change them in place under
+	// the lock.
+	idsNum := len(bsvc.IDs)
+
 	func() {
 		d.confMu.Lock()
 		defer d.confMu.Unlock()
@@ -212,7 +217,7 @@ func (d *DNSFilter) handleBlockedServicesUpdate(w http.ResponseWriter, r *http.R
 		d.conf.BlockedServices = bsvc
 	}()
 
-	log.Debug("updated blocked services schedule: %d", len(bsvc.IDs))
+	log.Debug("updated blocked services schedule: %d", idsNum)
 
 	d.conf.ConfigModified()
 }
